@@ -470,6 +470,28 @@ trait Theme: Clone {
     fn append_late_styles(&self, _tb: &mut ThemeBuilder) {}
 }
 
+/// `id` as it is written in a selector (`#id`): any XML id is a valid element id,
+/// but '.', ':' and the like have a meaning of their own in CSS, and an identifier
+/// can't start with a digit.
+fn css_identifier(id: &str) -> String {
+    let mut result = String::with_capacity(id.len());
+    for (idx, ch) in id.chars().enumerate() {
+        match ch {
+            '0'..='9' if idx == 0 => result.push_str(&format!("\\{:x} ", ch as u32)),
+            'a'..='z' | 'A'..='Z' | '0'..='9' | '-' | '_' => result.push(ch),
+            ch if !ch.is_ascii() => result.push(ch),
+            ch if ch.is_ascii_control() || ch == ' ' => {
+                result.push_str(&format!("\\{:x} ", ch as u32))
+            }
+            ch => {
+                result.push('\\');
+                result.push(ch);
+            }
+        }
+    }
+    result
+}
+
 pub struct ThemeBuilder {
     local_style_id: Option<String>,
     styles: Vec<String>,
@@ -488,7 +510,7 @@ impl ThemeBuilder {
     /// rather than the generated one. No effect unless local styles are in use.
     pub fn scope_local_styles_to(&mut self, id: &str) {
         if self.local_style_id.is_some() {
-            self.local_style_id = Some(id.to_owned());
+            self.local_style_id = Some(css_identifier(id));
         }
     }
 
